@@ -57,7 +57,9 @@ func (g *senGen) sep(b *strings.Builder) {
 	case 3:
 		b.WriteString(", ")
 	case 4:
-		b.WriteString(" // note\n")
+		b.WriteString(" //")
+		b.WriteString(g.commentText())
+		b.WriteString("\n")
 	case 5:
 		b.WriteString("\n  ")
 	case 6:
@@ -79,8 +81,18 @@ func (g *senGen) ows(b *strings.Builder) {
 	case 2:
 		b.WriteByte('\n')
 	case 3:
-		b.WriteString("//x\n")
+		b.WriteString("//")
+		b.WriteString(g.commentText())
+		b.WriteString("\n")
 	}
+}
+
+var commentTexts = []string{"x", " note", "", " a\tb", " crlf\r", " é ü", " \"quoted\" 'q'", " [1,2] {a:b}", " // again", " /* not a block */", " \\", " 0123456789 0123456789 0123456789 0123456789"}
+
+// commentText draws the body of a line comment (sen.md puts no restriction on it; tabs and the CR of
+// a CRLF line end are realistic).
+func (g *senGen) commentText() string {
+	return commentTexts[sim.Intn(g.t, len(commentTexts), "comment")]
 }
 
 func (g *senGen) str(b *strings.Builder) {
